@@ -283,6 +283,10 @@ class FortranAST:
                     inc.scope_objs = added_entities
 
     def resolve_links(self, obj_tree, link_version):
+        # Types are resolved lazily and cached per variable: forget them, the type
+        # may live in another file that has just been re-parsed
+        for var in self.variable_list:
+            var.type_obj = None
         for inherit_obj in self.inherit_objs:
             inherit_obj.resolve_inherit(obj_tree, inherit_version=link_version)
         for linkable_obj in self.linkable_objs:
